@@ -13,6 +13,14 @@ using namespace vh;
 static Result R;
 static Worker* W;
 
+// Quiescent point inside the engine: the main search thread announces a new search to its helpers. Everything of the previous search
+// must be over by now (C10: "every helper thread idle and acknowledged ... no helper still searching a previous position").
+extern "C" void __real__ZN12Communicator14sendInitSearchERK8PositionRKSt6vectorImSaImEEibi(Communicator*, const Position&, const std::vector<U64>&, int, bool, int);
+extern "C" void __wrap__ZN12Communicator14sendInitSearchERK8PositionRKSt6vectorImSaImEEibi(Communicator* self, const Position& pos, const std::vector<U64>& l, int n, bool clr, int wc) {
+    if (ses::curUci && self == ses::curUci->engineThread.comm.get()) ses::probeEndState("search-start");
+    __real__ZN12Communicator14sendInitSearchERK8PositionRKSt6vectorImSaImEEibi(self, pos, l, n, clr, wc);
+}
+
 struct Script { std::string name; std::vector<std::string> lines; };
 
 static std::vector<Script> scripts(int threads) {
@@ -165,6 +173,7 @@ static bool judge(const Script& sc, int threads, const std::vector<int>& choices
         return true;
     }
     ses::Analysis a = ses::analyse(t, true);
+    R.count("end_state_probes", a.endStateProbes);
     for (auto& f : a.findings) R.violation(f.sig, ctx + " : " + f.detail.substr(0, 600), rep);
     for (auto& g : a.gos) R.outcome(sc.name + ":" + g.best);
     return true;
